@@ -70,20 +70,33 @@ func TraceFamily(run *vf.Run, name string, n int, batch int, o GenOpts, seedOff 
 			}
 			continue
 		}
-		// find the offending transaction: validate one by one
-		for _, it := range items {
-			tr1, err := validate([]one{it})
+		// find the offending transactions by bisection
+		var bisect func(items []one)
+		failed := false
+		bisect = func(items []one) {
+			if failed || len(items) == 0 {
+				return
+			}
+			tr1, err := validate(items)
 			if err != nil {
 				run.Inconclusive("trace family %s: %v", name, err)
+				failed = true
 				return
 			}
 			if tr1.Accepted {
-				run.TraceValidated(1)
-				run.Eval("")
-				continue
+				run.TraceValidated(len(items))
+				for range items {
+					run.Eval("")
+				}
+				return
 			}
+			if len(items) > 1 {
+				bisect(items[:len(items)/2])
+				bisect(items[len(items)/2:])
+				return
+			}
+			it := items[0]
 			at := tr1.RejectedAt
-			evDesc := tr1.Detail
 			kind := "trace-rejected"
 			if at > 0 && at <= len(it.evs) {
 				e := it.evs[at-1]
@@ -93,9 +106,14 @@ func TraceFamily(run *vf.Run, name string, n int, batch int, o GenOpts, seedOff 
 				}
 			}
 			run.Violate(vf.Violation{Signature: name + ":" + kind + "|" + strings.Join(it.scen.Features(), "+"),
-				What: fmt.Sprintf("the recorded execution is not a behaviour of Engine.tla: event #%d rejected (%s) || %s || request %v", at, evDesc,
+				What: fmt.Sprintf("the recorded execution is not a behaviour of Engine.tla: event #%d rejected (%s) || %s || request %v", at, tr1.Detail,
 					strings.ReplaceAll(it.obs.Text, "\n", " ; "), it.scen.Req),
 				Replay: map[string]any{"family": name, "scenario": it.scen, "directives": it.obs.Text, "trace": it.evs, "rejected_at": at, "observed": it.obs}})
+		}
+		bisect(items[:len(items)/2])
+		bisect(items[len(items)/2:])
+		if failed {
+			return
 		}
 	}
 }
